@@ -183,6 +183,29 @@ def ob_annseq_slice(ss: int, a: int, b: int, has_a: bool, has_b: bool, f: int, l
     return _annot_model_equal(sub.annotation, exp)
 
 
+def ob_annseq_slice_outside(ss: int, a: int, b: int, has_a: bool, has_b: bool, f: int, l: int, rev: bool) -> bool:
+    """
+    The same with a feature that may reach before the first or past the last base of the sequence (annotation of a
+    longer record on a partial sequence): the slice of an annotated sequence holds the bases lo..hi of the SEQUENCE, so
+    the feature is cut there and marked on that side, whether or not that bound was given.
+    pre: 4 <= ss <= 2**30
+    pre: ss <= a < b <= ss + 6
+    pre: ss - 3 <= f <= l <= ss + 8
+    post: _
+    """
+    strand = REV if rev else FWD
+    annot = Annotation([Feature("CDS", [Location(f, l, strand)], {"q": "v"})])
+    aseq = AnnotatedSequence(annot, NucleotideSequence(SEQ6), sequence_start=ss)
+    sub = aseq[_slice(a, b, has_a, has_b)]
+    lo = a if has_a else ss
+    hi = (b if has_b else ss + 6) - 1
+    if str(sub.sequence) != SEQ6[lo - ss: hi - ss + 1] or sub.sequence_start != lo:
+        return False
+    m = model_loc(f, l, strand, D.NONE, lo, hi)
+    exp = {"CDS": [(m[0], m[1], m[2] is REV, m[3].value)]} if m else {}
+    return _annot_model_equal(sub.annotation, exp)
+
+
 def ob_annseq_int_index(ss: int, p: int) -> bool:
     """
     pre: 1 <= ss <= 2**30
